@@ -181,7 +181,7 @@ func (s *Set) getTemplateFromCache(templatePath string) (t *Template, exact, ok 
 		if extension == "" {
 			continue // the requested path itself, probed above
 		}
-		canonicalPath := templatePath + extension
+		canonicalPath := path.Clean(templatePath + extension) // (an extension may begin with a slash)
 		if t := s.cache.Get(canonicalPath); t != nil {
 			return t, false, true
 		}
@@ -192,7 +192,7 @@ func (s *Set) getTemplateFromCache(templatePath string) (t *Template, exact, ok 
 func (s *Set) getTemplateFromLoader(templatePath string, cacheAfterParsing bool, loading ...string) (t *Template, err error) {
 	// check path with all possible extensions in loader
 	for _, extension := range s.extensions {
-		canonicalPath := templatePath + extension
+		canonicalPath := path.Clean(templatePath + extension) // (an extension may begin with a slash)
 		if found := s.loader.Exists(canonicalPath); found {
 			return s.loadFromFile(canonicalPath, cacheAfterParsing, loading...)
 		}
